@@ -10,7 +10,8 @@ Numbers are decimal, byte strings lowercase hex (`-` = empty), strings the hex o
 encoding (`<str>`), an absent optional item is the token `none`.  `<state>` is `c:<payload bytes>`
 (Compressed) or `u:<str>` (Uncompressed), as in `c20`.
 
-  `c17 consts`   -> `<substitute gamma> <substitute chromaticities, 8 numbers csv> <max chunk length>`
+  `c17 consts`   -> `<substitute gamma> <substitute chromaticities, 8 numbers csv> <max chunk length> parseEmpty=<0|1>`
+        (the last field is `EncodeMeta.parseEmptyChunks`, the switch for the zero-length-chunk repair of the decoder)
   `c17 enc <kind> <fields…>` -> `<body>` | `err:<class>` — the chunk body of one item:
         `ihdr <w> <h> <depth> <color>`          encodeIhdr
         `phys <xppu> <yppu> <0|1>`               encodePhys
@@ -208,7 +209,7 @@ def bodyOut (r : Except TextEncErr Bytes) : String :=
 def c17 (args : List String) : String :=
   match args with
   | ["consts"] =>
-    s!"{substituteGamma} {",".intercalate (substituteChroma.toList.map toString)} {maxChunkLen}"
+    s!"{substituteGamma} {",".intercalate (substituteChroma.toList.map toString)} {maxChunkLen} parseEmpty={if parseEmptyChunks then 1 else 0}"
   | ["enc", "ihdr", w, h, d, c] =>
     match u32? w, u32? h, d.toNat?, c.toNat? with
     | some w, some h, some d, some c => if d < 256 ∧ c < 256 then toHexL (encodeIhdr w h d c) else "bad-op"
